@@ -9,8 +9,8 @@ from ..findings import still_fails
 
 ID = "C03"
 LEAN_MODULES = ["PycModel.Properties.C03"]
-NAMESPACES = ["PycModel.C03", "PycModel.Tables", "PycModel.TypeModify", "PycModel.DeclSkel", "PycModel.BuildDecl", "PycModel.DeclParse", "PycModel.View"]
-REQUIRED_THEOREMS = ["PycModel.C03.declarations_parse_as_the_grammar_says", "PycModel.C03.one_decl_per_declared_name", "PycModel.DeclParse.parse_declaration", "PycModel.DeclParse.parse_declBody", "PycModel.DeclParse.specs_loop", "PycModel.DeclParse.anyDeclarator_ok", "PycModel.DeclParse.initDeclarator_ok", "PycModel.DeclParse.initList_loop", "PycModel.BuildDecl.buildDeclarations_ok", "PycModel.BuildDecl.fixDeclNameType_ok", "PycModel.BuildDecl.fixAtomicSpecifiers_noop", "PycModel.View.reset_to", "PycModel.View.addIdentifier_spec", "PycModel.C03.denote_ofDerivs", "PycModel.C03.ident_ofDerivs", "PycModel.C03.type_modify_appends", "PycModel.C03.declarators_are_read_inside_out", "PycModel.C03.chain_is_denote", "PycModel.TypeModify.typeModify_chain", "PycModel.DeclSkel.parse_declarator", "PycModel.DeclSkel.all_d", "PycModel.DeclSkel.pointer_ok", "PycModel.DeclSkel.suffix_arr", "PycModel.DeclSkel.suffix_fn0",
+NAMESPACES = ["PycModel.C03", "PycModel.Tables", "PycModel.TypeModify", "PycModel.DeclSkel", "PycModel.BuildDecl", "PycModel.DeclParse", "PycModel.Init", "PycModel.View"]
+REQUIRED_THEOREMS = ["PycModel.C03.declarations_parse_as_the_grammar_says", "PycModel.C03.one_decl_per_declared_name", "PycModel.Init.init_ok", "PycModel.DeclParse.parse_declaration", "PycModel.DeclParse.parse_declBody", "PycModel.DeclParse.specs_loop", "PycModel.DeclParse.anyDeclarator_ok", "PycModel.DeclParse.initDeclarator_ok", "PycModel.DeclParse.initList_loop", "PycModel.BuildDecl.buildDeclarations_ok", "PycModel.BuildDecl.fixDeclNameType_ok", "PycModel.BuildDecl.fixAtomicSpecifiers_noop", "PycModel.View.reset_to", "PycModel.View.addIdentifier_spec", "PycModel.C03.denote_ofDerivs", "PycModel.C03.ident_ofDerivs", "PycModel.C03.type_modify_appends", "PycModel.C03.declarators_are_read_inside_out", "PycModel.C03.chain_is_denote", "PycModel.TypeModify.typeModify_chain", "PycModel.DeclSkel.parse_declarator", "PycModel.DeclSkel.all_d", "PycModel.DeclSkel.pointer_ok", "PycModel.DeclSkel.suffix_arr", "PycModel.DeclSkel.suffix_fn0",
                      "PycModel.Tables.model_decl_start", "PycModel.Tables.model_type_qualifier",
                      "PycModel.Tables.model_storage_class", "PycModel.Tables.model_type_spec_simple"]
 LEVEL = "proof"
